@@ -247,8 +247,12 @@ def run_wrappers(rng, obs):
        nested_given_as_configured_instance=inst_limit is not None, ranges_in_force=True)
     if math.isfinite(fopt):
         objs = [K.fnum(c[1]) + refpen(list(c[0])) for c in probe.calls]
-        ck(abs(fopt - min(objs)) <= 1e-12 * max(1.0, abs(fopt)), 'reported best energy is the minimum of the member bests', observed=fopt, member_bests=[min(objs)],
-           through='best objective over all evaluated points')
+        if nested != 'powell':     # (Powell evaluates an extrapolated point it need not adopt: its best is an evaluated objective value, not necessarily the least one ever seen)
+            ck(abs(fopt - min(objs)) <= 1e-12 * max(1.0, abs(fopt)), 'reported best energy is the minimum of the member bests', observed=fopt, member_bests=[min(objs)],
+               through='best objective over all evaluated points')
+        else:
+            ck(any(abs(fopt - o_) <= 1e-12 * max(1.0, abs(fopt)) for o_ in objs), 'reported best energy is the minimum of the member bests', observed=fopt, member_bests=[min(objs)],
+               through='the reported energy is the objective at some evaluated point')
         ck(tuple(xopt) in set(c[0] for c in probe.calls), 'reported solution is the best member\'s solution', best=xopt, winners=[])
     it, fc, wf = int(out[2]), int(out[3]), int(out[4])
     if wf == 1: okw = maxfun is not None and fc >= maxfun
